@@ -10,6 +10,13 @@ theorem limits_found_C08 : Limits.notFoundC08 = [] := by decide
 theorem limits_agree_fragOffsetUnit : extractOffset { off := 1 } = Limits.fragOffsetUnit ∧ extractOffset { off := 5 } = 5 * Limits.fragOffsetUnit := by
   decide
 
+/-- `IPv4Stream::allocate_pdu`: `first_fragment_.header_size() + total_size_ > 65535` → `return 0` (the numeral 65535 of
+    `allocBuf`; 20 = `hdrSize` of an option-less header) -/
+theorem limits_agree_reasmMaxDatagram :
+    allocBuf { total := Limits.reasmMaxDatagram - 20 } = some [] ∧ allocBuf { total := Limits.reasmMaxDatagram - 19 } = none ∧
+    allocBuf { total := Limits.reasmMaxDatagram - 23, first := { nopt := 1 } } = none := by
+  decide
+
 /-- `IP::MORE_FRAGMENTS` is bit 0 of the 3-bit flags field (the model tests `flags % 2`), `IP::DONT_FRAGMENT` bit 1 -/
 theorem limits_agree_ipFlags : Limits.ipMoreFragments = 1 ∧ Limits.ipDontFragment = 2 := by decide
 
